@@ -29,8 +29,8 @@ PROPS["C08"] = {
 
 def tree_parts(q, t):
     return [
-        opf("map", ["harness/cont_tree.cpp"], q, t, bin="cont_map", cflags=["-DMULTI=0"]),
-        opf("multimap", ["harness/cont_tree.cpp"], q, t, bin="cont_multimap", cflags=["-DMULTI=1"]),
+        opf("map", ["harness/cont_tree.cpp"], q, t, bin="cont_map", cflags=["-DMULTI=0", "-DSTRUCT_ORACLE", "-fno-access-control"]),
+        opf("multimap", ["harness/cont_tree.cpp"], q, t, bin="cont_multimap", cflags=["-DMULTI=1", "-DSTRUCT_ORACLE", "-fno-access-control"]),
     ]
 
 PROPS["C01"] = {
